@@ -506,7 +506,12 @@ def relayout(prog, root, src, layout):
                 parts.append(t)
             if toks and i % 3 == 0:
                 parts.insert(0, cm[i % len(cm)])
-            out.append(ind + " ".join(parts))
+            # every blank C's isspace knows (except the line ends): space, tab, form feed, vertical tab
+            blanks = [" ", "\t", " ", "\f", "  ", "\v", " \t "]
+            line = ind
+            for k, t in enumerate(parts):
+                line += (blanks[(i * 5 + k) % len(blanks)] if k else "") + t
+            out.append(line + ("\f" if i % 4 == 1 else ""))
         return "\n".join(out) + "\n"
     if layout == "oneline":
         for i in range(1, len(lines) + 1):
